@@ -67,13 +67,21 @@ def _writers(fn, du, w, handles, own_table):
     recv = c.func.value
     ua = fn.type_of(recv) == T.USERACTIONS or endswith(fn.name(recv) or "", "useractions",
                                                        "_useractions")
-    if m in ("doBulkRemoveRecord", "doBulkUpdateFromPairs", "doBulkUpdateRecord") and ua and c.args:
+    if m in ("doBulkRemoveRecord", "doBulkUpdateFromPairs", "doBulkUpdateRecord") and ua:
+      a = H.bound_args(w, c, "useractions.UserActions." + m, 1)
+      if not a or a[0] is None:
+        raise AnalysisError("%s: cannot bind the table argument of %s" % (fn.qualname, short(c)))
       kind = "remove" if m == "doBulkRemoveRecord" else "update"
-      out.append((n.id, kind, H.table_arg_value(fn, du, n.id, c.args[0], own_table), c))
-    elif fn.type_of(recv) == T.DOCMODEL and m in ("add", "insert", "insert_after") and c.args:
-      out.append((n.id, "add", H.handle_table_of(fn, c.args[0], w, handles), c))
-    elif fn.type_of(recv) == T.DOCMODEL and m in ("update", "remove") and c.args:
-      out.append((n.id, m, H.record_table_of(fn, c.args[0], w, handles, own_table=own_table), c))
+      out.append((n.id, kind, H.table_arg_value(fn, du, n.id, a[0], own_table), c))
+    elif fn.type_of(recv) == T.DOCMODEL and m in ("add", "insert", "insert_after", "update",
+                                                  "remove"):
+      a = H.bound_args(w, c, "docmodel.DocModel." + m, 1)
+      if not a or a[0] is None:
+        raise AnalysisError("%s: cannot bind the first argument of %s" % (fn.qualname, short(c)))
+      if m in ("update", "remove"):
+        out.append((n.id, m, H.record_table_of(fn, a[0], w, handles, own_table=own_table), c))
+      else:
+        out.append((n.id, "add", H.handle_table_of(fn, H.deref(fn, a[0]), w, handles), c))
   return out
 
 
@@ -213,8 +221,8 @@ def _col_to_dict_keys(w, env):
           go(s.body, None)
           go(s.orelse, None)
         continue
-      if isinstance(s, (ast.Return, ast.Expr)) and (isinstance(s, ast.Return) or
-                                                    isinstance(s.value, ast.Constant)):
+      if isinstance(s, ast.Pass) or (isinstance(s, (ast.Return, ast.Expr)) and (
+          isinstance(s, ast.Return) or isinstance(s.value, ast.Constant))):
         continue
       raise AnalysisError("schema.col_to_dict: unsupported statement %s" % short(s))
   go(fn.node.body, True)
@@ -330,24 +338,39 @@ def r2_field_sets(run, w):
       src = [x for nid in du.backward_slice([info]) for e in mc.cfg.nodes[nid].exprs
              for x in calls_in(e) if endswith(mc.name(x), "col_to_dict")]
       ok = len(src) == 1 and src[0].args and oldvar is not None and \
-          H.canon(mc, src[0].args[0]) == oldvar
+          H.canon(mc, src[0].args[0], stop={oldvar}) == oldvar
   run.ob(R2, mc.qualname, desc, "the recorded inverse carries the old column's values (taken from "
          "the one col_to_dict(old, ...) call)", ok, fi=mc.fi)
   # (f) a no-op shortcut, if there is one, compares complete columns
   sw = E.schema_write_nodes(mc)
   for n in mc.cfg.nodes:
-    if n.kind != "if" or n.id in mc.cfg.reach_after(sw):
+    if n.kind != "if" or n.id in mc.cfg.reach_after(sw) or n.id not in mc.cfg.if_true:
       continue
-    first = H.nodes_of_stmts(mc.cfg, n.stmt.body[:1])
-    r = mc.cfg.reach(first)
-    if not (mc.cfg.exit.id in r and not (r & sw)):
+    t_succ = set(mc.cfg.if_true[n.id])
+    f_succ = set(mc.cfg.succ[n.id]) - t_succ - set(mc.cfg.if_exc.get(n.id, ()))
+    sides = []
+    for side, succs in ((True, t_succ), (False, f_succ)):
+      r = mc.cfg.reach(succs) if succs else set()
+      if mc.cfg.exit.id in r and not (r & sw):
+        sides.append(side)
+    if len(sides) != 1:
       continue        # not an early return
     mentioned = {x.id for x in ast.walk(n.stmt.test) if isinstance(x, ast.Name)}
     if not (mentioned & {newvar, oldvar}):
       continue
     t = n.stmt.test
-    whole = isinstance(t, ast.Compare) and len(t.ops) == 1 and isinstance(t.ops[0], ast.Eq) and \
-        {text(t.left), text(t.comparators[0])} == {newvar, oldvar}
+    def columns_equal(v):
+      def val(e):
+        if isinstance(e, ast.Compare) and len(e.ops) == 1 and \
+            {text(e.left), text(e.comparators[0])} == {newvar, oldvar}:
+          if isinstance(e.ops[0], ast.Eq):
+            return v
+          if isinstance(e.ops[0], ast.NotEq):
+            return not v
+        return None
+      return val
+    whole = H.eval3(t, columns_equal(True)) is sides[0] and \
+        H.eval3(t, columns_equal(False)) is (not sides[0])
     run.ob(R2, mc.qualname, "if %s: return" % short(t), "the no-op shortcut compares whole schema "
            "columns (all fields), so a change of any one field is applied", whole, fi=mc.fi,
            node=n.stmt)
